@@ -32,18 +32,18 @@ fn focus_cfgs(tier: Tier) -> Vec<(Cfg, usize)> {
     let mut c = Cfg::base("focus-finish-drop-print", 20, 40);
     c.root = pre_logs(1, two_drawn());
     c.only = Some(focus_finish_drop_print);
-    v.push((c, if tier == Tier::Quick { 6 } else { 8 }));
+    v.push((c, if tier == Tier::Quick { 6 } else { 7 }));
     let mut c = Cfg::base("focus-finish-drop-print-hz1", 20, 40);
     c.hz = Some(1);
     c.root = pre_logs(1, vec![Op::Add, Op::Add, Op::Tick(0), Op::Tick(1), Op::Burn(0)]);
     c.only = Some(focus_finish_drop_print);
-    v.push((c, if tier == Tier::Quick { 5 } else { 7 }));
+    v.push((c, if tier == Tier::Quick { 5 } else { 6 }));
     let mut c = Cfg::base("focus-bottom-growth", 20, 40);
     c.root = pre_logs(1, vec![Op::AlignBottom, Op::Add, Op::Add, Op::Add, Op::Tick(0), Op::Tick(1), Op::Tick(2)]);
     c.max_bars = 5;
     c.msgs = vec![];
     c.only = Some(focus_bottom_growth);
-    v.push((c, if tier == Tier::Quick { 7 } else { 9 }));
+    v.push((c, if tier == Tier::Quick { 7 } else { 8 }));
     v
 }
 
